@@ -231,16 +231,19 @@ func sameAddrs(a, b []types.Address) bool {
 // multisig transaction whose signature list is permuted or whose wallet address
 // is replaced is another transaction with the same hash; the property text only
 // speaks of recovered signers, therefore such a neighbour is counted
-// (Rebind) but not reported.
-func Relate(x, y []byte, ref, o *Outcome, signers []types.Address) (viols []Viol, rebind bool) {
+// (rebind "address" / "members") but not reported.
+func Relate(x, y []byte, ref, o *Outcome, signers []types.Address) (viols []Viol, rebind string) {
 	if !o.Accepted || bytes.Equal(x, y) {
-		return nil, false
+		return nil, ""
 	}
 	if o.Hash == ref.Hash {
-		if o.Sender == ref.Sender && sameAddrs(o.Signers, ref.Signers) {
+		switch {
+		case o.Sender == ref.Sender && sameAddrs(o.Signers, ref.Signers):
 			viols = append(viols, Viol{"same-hash-second-encoding", fmt.Sprintf("a different byte string is accepted with the same signed hash %x and the same sender %s: second valid encoding of one transaction", o.Hash[:], o.Sender.String())})
-		} else if sameAddrs(o.Signers, ref.Signers) {
-			rebind = true
+		case sameAddrs(o.Signers, ref.Signers):
+			rebind = "address" // multisig wallet address replaced, member signatures untouched
+		case o.Sender == ref.Sender && len(o.Signers) > 0 && subset(o.Signers, ref.Signers):
+			rebind = "members" // multisig member signatures permuted / dropped
 		}
 		return
 	}
@@ -255,6 +258,21 @@ func Relate(x, y []byte, ref, o *Outcome, signers []types.Address) (viols []Viol
 	return
 }
 
+func subset(a, b []types.Address) bool {
+	for _, x := range a {
+		ok := false
+		for _, y := range b {
+			if x == y {
+				ok = true
+			}
+		}
+		if !ok {
+			return false
+		}
+	}
+	return true
+}
+
 // Honest applies oracle (b) to an original.
 func Honest(orig *Original, ref *Outcome) (viols []Viol) {
 	if ref.Panic != "" {
@@ -264,7 +282,18 @@ func Honest(orig *Original, ref *Outcome) (viols []Viol) {
 		return []Viol{{"sender-mismatch", fmt.Sprintf("honestly signed %s is rejected: decode=%q sender=%q", orig.Kind, ref.DecodeErr, ref.SenderErr)}}
 	}
 	if !sameAddrs(ref.Signers, orig.Signers) {
-		return []Viol{{"sender-mismatch", fmt.Sprintf("recovered %v, signing keys %v", ref.Signers, orig.Signers)}}
+		return []Viol{{"sender-mismatch", fmt.Sprintf("recovered %s, signing keys %s", Addrs(ref.Signers), Addrs(orig.Signers))}}
+	}
+	if orig.Kind == "check" && len(orig.LockPub) > 0 {
+		// the lock of a check is a signature of the passphrase key over HashWithoutLock: it must recover that key
+		c, err, pan := decodeCheck(orig.Bytes)
+		if err != nil || pan != "" {
+			return []Viol{{"sender-mismatch", fmt.Sprintf("honest check does not decode: %v %s", err, pan)}}
+		}
+		pub, err := c.LockPubKey()
+		if err != nil || !bytes.Equal(pub, orig.LockPub) {
+			return []Viol{{"sender-mismatch", fmt.Sprintf("LockPubKey() = %x (err %v), passphrase key %x", pub, err, orig.LockPub)}}
+		}
 	}
 	return ref.Viols
 }
